@@ -107,7 +107,7 @@ def template(LK):
     if "t" not in _T:
         lk = LK.TemplateLookup()
         lk.put_string("inc", INC)
-        lk.put_string("main", TEMPLATE)
+        lk.put_string("main", TEMPLATE_FULL)
         _T["t"] = lk.get_template("main")
         _T["lk"] = lk
     return _T["t"]
@@ -193,3 +193,39 @@ def step(p, RT, LK, UT, site, with_exception, hosted=False):
     return dict(site=site, d=d, c=c, pending=pending, pre=pre, post=post, ret=ret, exc=exc, contents=contents, seen=dict(seen), hosted=hosted,
                 raised=list(raised),
                 later=later, later_exc=later_exc, after=after, raise_id=rid, raise_occ=occ)
+
+
+# ------------------------------------------------------------------ depth 2: every site nested inside every kind of wrapper (thorough tier)
+def _up(s):
+    return s.upper()
+
+
+WRAPPERS = {
+    # kind: (helper def or None, body of the nested site, normal(N), on_raise(R))
+    "direct": ('<%def name="w_direct_{s}()">o[${{{s}()}}]o</%def>', "a2${{w_direct_{s}()}}b2", lambda N: "a2o[" + N + "]ob2", lambda R: "a2o[" + R),
+    "buffered": ('<%def name="w_buffered_{s}()" buffered="True">o[${{{s}()}}]o</%def>', "a2${{w_buffered_{s}()}}b2", lambda N: "a2o[" + N + "]ob2", lambda R: "a2"),
+    "filtered": ('<%def name="w_filtered_{s}()" filter="up">o[${{{s}()}}]o</%def>', "a2${{w_filtered_{s}()}}b2", lambda N: "a2" + _up("o[" + N + "]o") + "b2", lambda R: "a2"),
+    "capture": (None, "a2${{capture(w_direct_{s})}}b2", lambda N: "a2o[" + N + "]ob2", lambda R: "a2"),
+    "callbody": (None, 'a2<%call expr="wcaller()">${{{s}()}}</%call>b2', lambda N: "a2W[#4#" + N + "#5#]b2", lambda R: "a2W[#4#" + R),
+    "loopbody": (None, "a2\\\n% for z in (1,):\n${{{s}()}}\\\n% endfor\nb2", lambda N: "a2" + N + "b2", lambda R: "a2" + R),
+}
+BASE_SITES = dict(SITES)
+NESTED = {}
+_helpers = []
+_defs = []
+for _s, (_N, _R) in BASE_SITES.items():
+    for _w, (_helper, _body, _fn, _fr) in WRAPPERS.items():
+        if _w == "callbody" and ("#4#" in _N or "#5#" in _N):
+            continue            # the wrapper's own probes would repeat inside
+        if _helper:
+            _helpers.append(_helper.format(s=_s))
+        name = "n_%s_%s" % (_w, _s)
+        _defs.append('<%%def name="%s()">%s</%%def>' % (name, _body.format(s=_s)))
+        NESTED[name] = (_fn(_N), {k: _fr(v) for k, v in _R.items()})
+TEMPLATE_FULL = TEMPLATE + "\n".join(dict.fromkeys(_helpers)) + "\n" + "\n".join(_defs) + "\n"
+TEMPLATE_FULL = TEMPLATE_FULL + "".join(
+    HOST.replace("${__SITE__()}", '<%%def name="%s()">' % n).split("<%def name=\"%s()\">" % n)[0] if False else
+    HOST.replace("${__SITE__()}", _defs[i][_defs[i].index(">") + 1:-len("</%def>")]).replace("__SITE__", n)
+    for i, n in enumerate(NESTED))
+ALL_SITES = dict(SITES)
+ALL_SITES.update(NESTED)
